@@ -10,7 +10,11 @@ Events == Batch.events
 N      == Len(Events)
 
 TolSolve == FxTol(26)          \* end-to-end solves on <= 12 unknowns, integer data, |solution| <= 64
-TolPenal == FxTol(16)          \* penalised solution vs prescribed values: error O(epsilon * |A| * |y|), epsilon = 2^-30
+\* penalised solution vs the exact one.  The penalised system holds entries ~1e9..1e11 next to O(1) ones: a backward-stable
+\* direct solve of THAT system cannot promise more than ~cond * eps digits, and how many it delivers depends on the
+\* factorisation (spsolve equilibrates: observed 1e-10; plain SuperLU `splu`: up to 4e-6 on these systems, benign edit B16).
+\* 2^-8 keeps a factor > 1e3 over the worst observed; the defects this clause is there for give O(1) errors or NaN.
+TolPenal == FxTol(8)
 
 VecWF(v, n)  == Len(v) = n
 Zeros(n)     == [i \in 1..n |-> 0]
